@@ -1165,8 +1165,12 @@ pub fn judge_help(d: &Decl, hc: &HelpCase, rows: &[String]) -> Vec<(&'static str
             // description
             for para in description_of(&v.doc) {
                 let w = words(&para);
-                if !wrows.iter().any(|r| *r == w) {
+                let n = wrows.iter().filter(|r| **r == w).count();
+                if n == 0 {
                     fails.push(("command-help", "description-missing".into(), format!("description paragraph {:?} is not printed", para)));
+                } else if n > 1 {
+                    // "prints its description": the text of the doc comment, not some paragraphs of it several times
+                    fails.push(("command-help", "description-repeated".into(), format!("description paragraph {:?} is printed {} times", para, n)));
                 }
             }
             // usage line
